@@ -121,7 +121,7 @@ func genC14Args(r *zsim.Rng, p *sysPlan) {
 	if r.Chance(2, 5) {
 		add("--preview", pick(r, "PV {}", "PV {q}", "PV {n} {+}", "PV {f}"))
 		if r.Chance(2, 3) {
-			add("--preview-window", pick(r, "right", "left", "up", "down", "right,10%", "up,1", "down,99%", "hidden", "right,border-none", "left,wrap,follow", "up,~3", "right,<50(down)", "0", "right,0"))
+			add("--preview-window", pick(r, "right", "left", "up", "down", "right,10%", "up,1", "down,99%", "hidden", "right,border-none", "left,wrap,follow", "up,~3", "right,<50(down)", "0", "right,0", "up,2,border-none,~3,cycle", "right,cycle", "down,3,~2,cycle,follow", "up,1,border-none"))
 		}
 	}
 	if r.Chance(1, 8) {
@@ -578,6 +578,9 @@ func runC14(c *runCtx) {
 		c.count("probe.become", 1)
 		for _, a := range r.tty.Audit() {
 			c.violate("exit.unclean", "at the instant fzf replaced itself with %q: %s", r.became, a)
+		}
+		for _, a := range r.becameLeft {
+			c.violate("exit.unclean", "at the instant fzf replaced itself with %q: child process %s still running and never killed", r.became, a)
 		}
 	}
 	if r.tty.Overflow > 0 {
